@@ -15,7 +15,7 @@ From Gen Require Import M_base M_Angle M_Epoch M_Moon.
 From Proofs.C15 Require Import C15_angle C15_fdefs.
 From Proofs.C15 Require C15_p_moon_phase_new C15_p_moon_phase_first C15_p_moon_phase_full C15_p_moon_phase_last.
 From Proofs.C15 Require Import C15_phase.
-From Proofs.C15 Require C15_d_moon_phase_new C15_d_moon_phase_full.
+From Proofs.C15 Require C15_d_moon_phase_new C15_d_moon_phase_full C15_d_moon_phase_first C15_d_moon_phase_last.
 Import ListNotations.
 Open Scope R_scope.
 
@@ -55,13 +55,19 @@ Proof. exact phase_spacing. Qed.
    mkdiff.py): each of the 25 periodic terms c E^p sin(th) changes by at most |c| Emax^p 2|sin((th'-th)/2)| + |c| eps,
    th'-th from the advance of M, M', F, Omega per lunation (29.105.., 385.816.., 390.670.., -1.563.. deg, +-0.01);
    sum 0.3136 d; the 14 planetary terms by their amplitude (0.0026 d); mean-phase polynomial 1e-4 d.
-   (The quarters really vary more: 29.18 .. 29.93 d observed; for them only C15_phase_spacing is proved.) *)
+   The quarters really vary more (29.18 .. 29.93 d observed): the same bound gives 0.4100 + 0.005 d, i.e. 29.1 .. 30.0 d. *)
 Theorem C15_new_moon_spacing : forall k : R, C15_d_moon_phase_new.win k -> C15_d_moon_phase_new.win (k + 1) ->
   292 / 10 <= C15_p_moon_phase_new.v_jde_2 (k + 1) - C15_p_moon_phase_new.v_jde_2 k <= 299 / 10.
 Proof. exact C15_d_moon_phase_new.step_days. Qed.
 Theorem C15_full_moon_spacing : forall k : R, C15_d_moon_phase_full.win k -> C15_d_moon_phase_full.win (k + 1) ->
   292 / 10 <= C15_p_moon_phase_full.v_jde_2 (k + 1) - C15_p_moon_phase_full.v_jde_2 k <= 299 / 10.
 Proof. exact C15_d_moon_phase_full.step_days. Qed.
+Theorem C15_first_quarter_spacing : forall k : R, C15_d_moon_phase_first.win k -> C15_d_moon_phase_first.win (k + 1) ->
+  291 / 10 <= C15_p_moon_phase_first.v_jde_2 (k + 1) - C15_p_moon_phase_first.v_jde_2 k <= 300 / 10.
+Proof. exact C15_d_moon_phase_first.step_days. Qed.
+Theorem C15_last_quarter_spacing : forall k : R, C15_d_moon_phase_last.win k -> C15_d_moon_phase_last.win (k + 1) ->
+  291 / 10 <= C15_p_moon_phase_last.v_jde_2 (k + 1) - C15_p_moon_phase_last.v_jde_2 k <= 300 / 10.
+Proof. exact C15_d_moon_phase_last.step_days. Qed.
 
 Redirect "C15_moon_phase_new.assumptions" Print Assumptions C15_moon_phase_new.
 Redirect "C15_moon_phase_first.assumptions" Print Assumptions C15_moon_phase_first.
@@ -71,3 +77,5 @@ Redirect "C15_phase_order.assumptions" Print Assumptions C15_phase_order.
 Redirect "C15_phase_spacing.assumptions" Print Assumptions C15_phase_spacing.
 Redirect "C15_new_moon_spacing.assumptions" Print Assumptions C15_new_moon_spacing.
 Redirect "C15_full_moon_spacing.assumptions" Print Assumptions C15_full_moon_spacing.
+Redirect "C15_first_quarter_spacing.assumptions" Print Assumptions C15_first_quarter_spacing.
+Redirect "C15_last_quarter_spacing.assumptions" Print Assumptions C15_last_quarter_spacing.
